@@ -9,6 +9,7 @@ open Gwb
 #print axioms C01_no_hidden_state
 #print axioms C01_order_and_grouping_irrelevant
 #print axioms C01_duplicate_entries_agree
+#print axioms C01_order_and_grouping_irrelevant_2d
 #check @C01_output_size
 #check @C01_layout
 #check @C01_block_eq_single
@@ -17,3 +18,4 @@ open Gwb
 #check @C01_no_hidden_state
 #check @C01_order_and_grouping_irrelevant
 #check @C01_duplicate_entries_agree
+#check @C01_order_and_grouping_irrelevant_2d
